@@ -225,6 +225,7 @@ pub fn run(a: &Args, rep: &mut Report) {
         };
         let n_p = (n / 40).max(500);
         let mut bad: Vec<(String, String, serde_json::Value)> = Vec::new();
+        let mut par_args: Vec<[u64; 3]> = Vec::new();
         for k in 0..n_p {
             let t: Vec<u64> = (0..3)
                 .map(|_| match rng.below(8) {
@@ -258,12 +259,22 @@ pub fn run(a: &Args, rep: &mut Report) {
             if k == 3 {
                 rep.sample(json!({"helper": "bpf_trace_printf", "args": t, "bytes_printed": written}));
             }
+            if par_args.len() < 3000 {
+                par_args.push([t[0], t[1], t[2]]);
+            }
             if after > (1 << 26) {
                 unsafe {
                     libc::ftruncate(fd, 0);
                     libc::lseek(fd, 0, libc::SEEK_SET);
                 }
             }
+        }
+        // 8 threads printing at once (stdout still redirected): each call must return what the
+        // same call returned alone - the number of bytes of ITS line
+        let (pexecs, pbad) = crate::mon_par::par_same(&par_args, |t| sys::catch(|| helpers::bpf_trace_printf(0, 7, t[0], t[1], t[2])).map_err(|p| sys::panic_site(&p)), if q { 2 } else { 6 });
+        unsafe {
+            libc::ftruncate(fd, 0);
+            libc::lseek(fd, 0, libc::SEEK_SET);
         }
         unsafe {
             let _ = std::io::stdout().flush();
@@ -275,6 +286,7 @@ pub fn run(a: &Args, rep: &mut Report) {
         for (k, d, w) in bad {
             viol(rep, "bpf_trace_printf", &k, d, w);
         }
+        crate::mon_par::report_par(rep, "C19", "bpf_trace_printf", pexecs, pbad, |i| json!({"helper": "bpf_trace_printf", "args": par_args[i]}));
         rep.set("helpers", "bpf_trace_printf");
     }
 
